@@ -606,7 +606,21 @@ func publish(c *core.Ctx, n int) *world {
 // clientTime draws the client's clock reading relative to the victim's window.
 func clientTime(c *core.Ctx, l *gen.LSXG) time.Time {
 	var s int64
-	switch c.Pick("clock.at", 10) {
+	switch c.Pick("clock.at", 11) {
+	case 10:
+		// a clock centuries off: an in-window instant plus a multiple of 2^64 ns (where
+		// nanosecond counters wrap), 2^63 ns, or 2^32 s
+		in := l.Date + c.I64("clock.in", 0, l.Expires-l.Date)
+		k := c.PickI64("clock.wraps", 1, -1, 2, -2)
+		c.Fault("clock-centuries-off")
+		switch c.Pick("clock.wrapUnit", 3) {
+		case 0:
+			return time.Unix(in+k*18446744073, k*709551616)
+		case 1:
+			return time.Unix(in+k*9223372036, k*854775808)
+		default:
+			return time.Unix(in+k*(1<<32), 0)
+		}
 	case 0:
 		s = l.Date - 1
 		c.Fault("clock-skew-before-date")
@@ -776,7 +790,7 @@ func tamper(c *core.Ctx, w *world, l *gen.LSXG) (*signedexchange.Exchange, strin
 		return readIt(o.File), "misdirected"
 	case "certnet":
 		e := readIt(l.File)
-		op := c.PickStr("certnet.op", "unreachable", "foreign-chain", "corrupt-chain", "truncated-chain", "chain-of-same-host-other-key", "garbage-chain", "empty-chain")
+		op := c.PickStr("certnet.op", "unreachable", "foreign-chain", "corrupt-chain", "truncated-chain", "chain-of-same-host-other-key", "garbage-chain", "empty-chain", "forged-by-chain-member", "odd-key-chain")
 		if e != nil && c.Chance("certnet.twoSignatures", 1, 3) {
 			// the header lists the signature twice: both name the same cert-url, which is
 			// fetched (and fails, or not) once per signature
@@ -785,6 +799,31 @@ func tamper(c *core.Ctx, w *world, l *gen.LSXG) (*signedexchange.Exchange, strin
 			c.Probe("certificate fault with two signatures naming one cert-url")
 		}
 		switch op {
+		case "odd-key-chain":
+			// the certificate server hands out a chain whose first certificate carries a key of
+			// a kind the format does not use (P-521, P-224, RSA, Ed25519)
+			odd := fixtures.OddCerts[c.Pick("certnet.odd", len(fixtures.OddCerts))]
+			w.net.blobs[l.CertURL] = gen.ChainBytesOf([][]byte{odd.DER, l.Leaf.CADER}, []byte("ocsp-odd"))
+			c.Fault("certnet-odd-key-chain")
+		case "forged-by-chain-member":
+			// another key holder signs altered content for the victim's URL and gets the
+			// certificate server to hand out [victim's certificate, forger's certificate, CA]:
+			// only the FIRST certificate of a chain can be the signer
+			other := fixtures.Leaves[c.Pick("certnet.forger", len(fixtures.Leaves))]
+			if other == l.Leaf {
+				other = fixtures.ByName("d-p384")
+				if other == l.Leaf {
+					other = fixtures.ByName("a-p256")
+				}
+			}
+			f := *l
+			f.Leaf, f.SignerObj = other, nil
+			f.Payload = append([]byte("forged:"), l.Payload...)
+			if _, err := f.Sign(); err == nil {
+				w.net.blobs[l.CertURL] = gen.ChainBytesOf([][]byte{l.Leaf.DER, other.DER, l.Leaf.CADER}, []byte("ocsp-"+l.Leaf.Name))
+				c.Fault("certnet-forger-inside-the-chain")
+				return readIt(f.File), "certnet-" + op
+			}
 		case "garbage-chain":
 			w.net.blobs[l.CertURL] = c.Bytes("certnet.garbage", 0, 40)
 			c.Fault("certnet-garbage-chain")
